@@ -12,6 +12,7 @@
 
 use std::cell::{Cell, RefCell};
 use std::hash::{BuildHasher, Hasher};
+use std::sync::atomic::{AtomicU64, Ordering};
 use std::io::Read;
 use std::path::Path;
 
@@ -20,9 +21,16 @@ pub use std::collections::hash_map;
 /// Signature of the simulated disk: called by `Parser::add_file` instead of `File::open`.
 pub type Disk = Box<dyn FnMut(&Path) -> std::io::Result<Box<dyn Read>>>;
 
+// Keys most recently installed by any thread: a thread that never called `set_hash_keys`
+// (e.g. a worker spawned by the library itself) starts from them instead of from a constant,
+// like a thread that gets its own `RandomState` keys in the unhooked build.
+static AMBIENT_NEXT: AtomicU64 = AtomicU64::new(0);
+static AMBIENT_STEP: AtomicU64 = AtomicU64::new(0);
+const UNSET: (u64, u64) = (u64::MAX, u64::MAX);
+
 thread_local! {
     // (next key, step): every new table takes `next key`, then `next key += step`
-    static KEY_SOURCE: Cell<(u64, u64)> = Cell::new((0, 0));
+    static KEY_SOURCE: Cell<(u64, u64)> = Cell::new(UNSET);
     static TABLE_INSTANCES: Cell<u64> = Cell::new(0);
     static DISK: RefCell<Option<Disk>> = RefCell::new(None);
 }
@@ -31,11 +39,25 @@ thread_local! {
 /// the key `next`, the one after `next + step`, and so on (`step == 0`: all tables share one key).
 pub fn set_hash_keys(next: u64, step: u64) {
     KEY_SOURCE.with(|k| k.set((next, step)));
+    AMBIENT_NEXT.store(next, Ordering::Relaxed);
+    AMBIENT_STEP.store(step, Ordering::Relaxed);
+}
+
+fn key_source() -> (u64, u64) {
+    KEY_SOURCE.with(|k| {
+        if k.get() == UNSET {
+            k.set((
+                AMBIENT_NEXT.load(Ordering::Relaxed),
+                AMBIENT_STEP.load(Ordering::Relaxed),
+            ));
+        }
+        k.get()
+    })
 }
 
 /// H1: current state of the key source of the calling thread.
 pub fn hash_keys() -> (u64, u64) {
-    KEY_SOURCE.with(|k| k.get())
+    key_source()
 }
 
 /// H1: number of tables created on the calling thread so far.
@@ -86,11 +108,9 @@ impl SimHashState {
 impl Default for SimHashState {
     fn default() -> Self {
         TABLE_INSTANCES.with(|c| c.set(c.get().wrapping_add(1)));
-        KEY_SOURCE.with(|k| {
-            let (next, step) = k.get();
-            k.set((next.wrapping_add(step), step));
-            SimHashState { key: next }
-        })
+        let (next, step) = key_source();
+        KEY_SOURCE.with(|k| k.set((next.wrapping_add(step), step)));
+        SimHashState { key: next }
     }
 }
 
